@@ -206,3 +206,91 @@ def angle_domain_rule(repo, res, RULE="T8-ANGLES"):
         except Undecided as x:
             raise AnalysisError("is_valid_orientation [%s]: %s" % (label, x))
         res.check(RULE, "is_valid_orientation [angle %s]: %s" % (label, "accepted" if want else "rejected"), bad is None, vmod, fn, "is_valid_orientation [angle %s] %s" % (label, bad), "an angle of the closed interval [-2pi, 2pi] is rejected (every translate_rotate then raises for it), or an angle outside is accepted", qualname="is_valid_orientation")
+
+
+def matrix_rule(repo, res, RULE="T1-MATRIX"):
+    """rotation_translation_matrix / translation_rotation_matrix of geometry/transform.py, evaluated: translation and
+    angle are atoms, cos / sin of the angle uninterpreted terms, numpy's array constructors and the matrix product are
+    given their meaning on lists of terms; the entries of the resulting 3 x 3 matrix are compared, on sample values, with
+
+        rotate then translate:  (c, -s, tx; s, c, ty; 0, 0, 1)        translate then rotate:  (c, -s, c tx - s ty; s, c, s tx + c ty; 0, 0, 1)
+
+    also for the angle 0 (where the code may take a short cut)."""
+    import math
+
+    from ..strdom import Ctor, Ev, FuncV, ListV, Sym, Term, Undecided, _Raise, show
+
+    TF = "commonroad/geometry/transform.py"
+    tmod = repo.mod(TF)
+
+    def arr2(rows):
+        out = ListV([ListV(list(r)) for r in rows])
+        for r in out.items:
+            r.ext_types = {"ndarray"}
+        out.ext_types = {"ndarray"}
+        return out
+
+    for fname, spec in (("rotation_translation_matrix", lambda c, s_, tx, ty: [[c, -s_, tx], [s_, c, ty], [0, 0, 1]]), ("translation_rotation_matrix", lambda c, s_, tx, ty: [[c, -s_, c * tx - s_ * ty], [s_, c, s_ * tx + c * ty], [0, 0, 1]])):
+        fn = tmod.functions.get(fname)
+        if fn is None:
+            raise AnalysisError("transform.%s missing" % fname)
+        for label, ang in (("angle 0.7", 0.7), ("angle -2.1", -2.1), ("angle 0", 0.0), ("a tiny angle, 0.0005", 0.0005), ("angle 2pi", 2 * math.pi)):
+            tx, ty, an = Sym("tx", "num"), Sym("ty", "num"), Sym("angle", "num")
+            vals = {"tx": 3.0, "ty": -2.0, "angle": ang}
+
+            def num(v):
+                if isinstance(v, bool):
+                    raise Undecided("a truth value among the entries")
+                if isinstance(v, (int, float)):
+                    return float(v)
+                if isinstance(v, Sym):
+                    return vals[v.name]
+                if isinstance(v, Term):
+                    a = [num(x) for x in v.args]
+                    if v.op == "neg":
+                        return -a[0]
+                    if v.op in ("+", "-", "*") and len(a) == 2:
+                        return {"+": a[0] + a[1], "-": a[0] - a[1], "*": a[0] * a[1]}[v.op]
+                    if v.op == "/" and len(a) == 2 and a[1] != 0:
+                        return a[0] / a[1]
+                if isinstance(v, Ctor) and v.name.split(".")[-1] in ("cos", "sin", "float64", "float") and len(v.args) == 1:
+                    x = num(list(v.args.values())[0])
+                    return {"cos": math.cos, "sin": math.sin}.get(v.name.split(".")[-1], float)(x)
+                raise Undecided("the entry %s" % show(v))
+
+            def oracle(kind, a, b):
+                f = {"Lt": lambda x, y: x < y, "LtE": lambda x, y: x <= y, "Gt": lambda x, y: x > y, "GtE": lambda x, y: x >= y, "Eq": lambda x, y: x == y, "NotEq": lambda x, y: x != y}.get(kind)
+                if f is None:
+                    return None
+                try:
+                    return bool(f(num(a), num(b)))
+                except Undecided:
+                    return None
+
+            ev = Ev(repo)
+            ev.pure_modules = {"math", "np", "numpy"}
+            ev.oracle = oracle
+            ev.model_calls["np.array"] = ev.model_calls["numpy.array"] = ev.model_calls["np.asarray"] = lambda a, k: arr2([r.items for r in a[0].items]) if isinstance(a[0], ListV) and a[0].items and all(isinstance(r, ListV) for r in a[0].items) else a[0]
+            ident = lambda a, k: arr2([[1.0 if i == j else 0.0 for j in range(a[0])] for i in range(a[0])]) if a and isinstance(a[0], int) else (_ for _ in ()).throw(Undecided("identity(%s)" % show(a[0] if a else None)))
+            ev.model_calls["np.identity"] = ev.model_calls["numpy.identity"] = ev.model_calls["np.eye"] = ev.model_calls["numpy.eye"] = ident
+            zeros = lambda a, k: arr2([[0.0] * a[0].items[1] for _ in range(a[0].items[0])]) if a and isinstance(a[0], ListV) and len(a[0].items) == 2 and all(isinstance(x, int) for x in a[0].items) else (_ for _ in ()).throw(Undecided("zeros(%s)" % show(a[0] if a else None)))
+            ev.model_calls["np.zeros"] = ev.model_calls["numpy.zeros"] = zeros
+            ev.model_calls["math.isclose"] = ev.model_calls["np.isclose"] = ev.model_calls["numpy.isclose"] = lambda a, k: abs(num(a[0]) - num(a[1])) <= max(num(k.get("rel_tol", k.get("rtol", 1e-09))) * max(abs(num(a[0])), abs(num(a[1]))), num(k.get("abs_tol", k.get("atol", 0.0))))
+            ev.model_calls["np.dot"] = ev.model_calls["numpy.dot"] = ev.model_calls["np.matmul"] = lambda a, k: ev.method(a[0], "dot", [a[1]], {}, fn)
+            bad = None
+            try:
+                r = ev.call_fn(FuncV(fn, mod=tmod), [ListV([tx, ty]), an], {}, fn)
+                if not (ev._is_matrix(r) and len(r.items) == 3 and len(r.items[0].items) == 3):
+                    bad = "gives %s" % show(r)
+                else:
+                    want = spec(math.cos(ang), math.sin(ang), 3.0, -2.0)
+                    got = [[num(x) for x in row.items] for row in r.items]
+                    diff = [(i, j) for i in range(3) for j in range(3) if abs(got[i][j] - want[i][j]) > 1e-12]
+                    if diff:
+                        i, j = diff[0]
+                        bad = "entry (%d, %d) is %s = %.6g, expected %.6g" % (i, j, show(r.items[i].items[j]), got[i][j], want[i][j])
+            except _Raise as x:
+                bad = "raises %s" % x.what
+            except Undecided as x:
+                raise AnalysisError("transform.%s [%s]: %s" % (fname, label, x))
+            res.check(RULE, "%s [%s]: rotation block (cos, -sin; sin, cos) of the angle and the translation column of its order" % (fname, label), bad is None, tmod, fn, "%s [%s] %s" % (fname, label, bad), "the matrix is not the rigid motion of the given translation and angle (rotation block, sign of the sine, order of translation and rotation)", qualname=fname)
